@@ -21,7 +21,7 @@ import zlib
 from .. import vp
 
 LEVEL = "translation_validation"
-FACTS = ["file_codegen_src_grammar_mod_rs", "file_codegen_src_header_rs", "grammar_ebnf"]
+FACTS = ["file_codegen_src_", "file_runtime_src_", "grammar_ebnf"]
 
 
 def rustfmt(code):
